@@ -373,6 +373,7 @@ type resolverSuite struct{ name string }
 func init() {
 	register(resolverSuite{"resolver"})
 	register(resolverSuite{"multiarch"})
+	register(resolverSuite{"resolver-pure"}) // C08: same generator, correspondence + repeatability only
 }
 
 func (s resolverSuite) Name() string { return s.name }
@@ -380,7 +381,7 @@ func (s resolverSuite) Name() string { return s.name }
 func (s resolverSuite) Gen(r *Rng, i int, tier string) any {
 	g, indexes := genUniverse(r, tier == "thorough" && r.Chance(40))
 	world := genWorld(g, indexes)
-	if s.name == "resolver" {
+	if s.name != "multiarch" {
 		return rCase{Archs: []rArch{{Arch: "x86_64", Indexes: indexes}}, World: world}
 	}
 	n := r.Range(2, 3)
@@ -421,7 +422,11 @@ func (s resolverSuite) Run(raw json.RawMessage) []Step {
 			tags = append(tags, fmt.Sprintf("install-size:%d", min(n, 8)))
 		}
 		desc := describeCase(c, self)
-		if s.name == "resolver" {
+		if s.name == "resolver-pure" {
+			out = goResolveStable(c.Archs, self, c.World, c.Multi, 4)
+			fields[0], fields[len(fields)-1] = "r.corr", out
+			steps = append(steps, Step{Line: strings.Join(fields, "\t"), Go: out, Desc: desc, Tags: tags, Mode: "verdict", Trivial: out == "err"})
+		} else if s.name == "resolver" {
 			steps = append(steps, Step{Line: strings.Join(fields, "\t"), Go: out, Desc: desc, Tags: tags, Mode: "verdict", Trivial: out == "err"})
 		} else {
 			fields[0] = "r.avail"
